@@ -114,6 +114,16 @@ def extract():
     c["escapePairs"] = pairs
     # every remote path interpolated into a command must sit inside $'...'
     c["quoteSites"] = sum(len(re.findall(r"\$'\{[a-z_]*\}", read("src/bin/copia/" + rel))) for rel in ("dir_sync.rs", "meta.rs", "single_sync.rs", "transfer.rs"))
+    # the remote command for name lists (push --delete, remote mkdir): the format string of `guarded_xargs`, and every
+    # `xargs` in the two files must be inside it (no call site may hand a list to a bare `xargs -0`)
+    tr_txt = read("src/bin/copia/transfer.rs"); inc_txt = read("src/bin/copia/incremental.rs")
+    gx = one(tr_txt, r'pub fn guarded_xargs\(tool: &str, len: usize\) -> String \{\s*format!\(\s*"((?:[^"\\]|\\.)*)"\s*\)\s*\}', "guarded_xargs format string")
+    c["guardedXargs"] = bytes(gx, "utf-8").decode("unicode_escape")
+    code_only = lambda t: re.sub(r"//[^\n]*", "", t)
+    n_x = len(re.findall(r"xargs", code_only(tr_txt))) + len(re.findall(r"xargs", code_only(inc_txt)))
+    n_calls = len(re.findall(r"guarded_xargs\(", code_only(tr_txt))) + len(re.findall(r"guarded_xargs\(", code_only(inc_txt)))
+    if n_x != n_calls + 1:          # one literal `xargs` in the format string, the rest are calls of the helper (incl. its definition)
+        raise ExtractError(f"`xargs` occurs {n_x} times in transfer.rs/incremental.rs but guarded_xargs( only {n_calls} times: a bare xargs command?")
     c["serveChunk"] = arith(one(read("src/bin/copia/serve.rs"), r"vec!\[0u8; ([0-9_\s\*]+)\]", "serve chunk"))
     c["pushChunk"] = arith(one(read("src/bin/copia/transfer.rs"), r"vec!\[0u8; ([0-9_\s\*]+)\]", "push chunk"))
     return c
@@ -138,6 +148,7 @@ def render(c):
     L.append(f"def findPrintf : List Nat := {c['findPrintf']}")
     L.append("def escapePairs : List (Nat × List Nat) := [" + ", ".join(f"({a}, {b})" for a, b in c["escapePairs"]) + "]")
     L.append(f"def stagingSuffix : String := {lean_str(c['stagingSuffix'])}")
+    L.append(f"def guardedXargs : String := {lean_str(c['guardedXargs'])}")
     L.append("end Copia.Gen")
     return "\n".join(L) + "\n"
 
